@@ -775,3 +775,67 @@ Proof.
   refine (conj _ (conj _ (conj _ (conj _ (conj _ (conj _ (conj (Hf written_value) _))))))); try (vm_compute; reflexivity).
   vm_compute. discriminate.
 Qed.
+
+(* ================================================================================================== *)
+(* added from Properties/C15_add.v (2026-10-01)                                              *)
+(* ================================================================================================== *)
+(* C15 (continued): is the ordering of the existing target BEFORE the merge (C15_write_option_append) redundant when the
+   target is the result of a read?  C15_append_preorder_finding showed that it is not for hand-built states with duplicate
+   comments and conjectured that it is for read results.  It is NOT, even for two clean read results: the clean-up after
+   the merge threads the side tables through the dict levels in data order, and a table row deleted at one level changes
+   the decision taken for the same id at a later level.  Needs CleanInvariant in _CoqProject before it. *)
+From Coq Require Import String.
+From Coq Require Import NArith ZArith List Bool.
+From DictIO Require Import Chars Str Value Scalar KeyPath SDict TokParser Reader Parse TreeSpec IncludeNested CleanInvariant.
+Import ListNotations.
+
+Module C15_clean_ex.
+  Definition eroot := of_string "/d/e.dict".   Definition sroot := of_string "/d/s.dict".
+  (* the existing target: the dicts b, a in this (unsorted) order, the same block comment in both *)
+  Definition etext := of_string "b { /* o */ /* blk */ y 1; }
+a { /* blk */ x 1; }
+".
+  (* the source: the same block comment, under another id, in a and in b *)
+  Definition stext := of_string "a { /* p */ /* q */ /* r */ /* blk */ u 1; }
+b { /* blk */ v 1; }
+".
+  Definition fs : fsys := [(eroot, FNative etext); (sroot, FNative stext)].
+  Definition bc3 := KS (of_string "BLOCKCOMMENT000003").
+End C15_clean_ex.
+
+(* finding (confirmed on the real library with DictReader.read, order_keys and merge): [existing] and [src] are read results,
+   both clean with distinct table ids (clean_state, tabs_ok: by the theorem C14_read_clean, not by computation), and still
+   ordering the existing dict before the merge changes the result after the final ordering: the placeholder entry
+   BLOCKCOMMENT000003 of the source survives in the dict that the clean-up visits SECOND (b when a comes first, a when b
+   comes first) -- as a dangling entry, its table row 3 is deleted in both cases *)
+Example C15_append_preorder_clean_finding :
+  exists existing src c1 c2,
+    read_opts C15_clean_ex.fs C15_clean_ex.eroot true false true [] 0 = Some (Ok (existing, c1)) /\
+    read_opts C15_clean_ex.fs C15_clean_ex.sroot true false true [] 0 = Some (Ok (src, c2)) /\
+    clean_state existing = true /\ tabs_ok existing = true /\ clean_state src = true /\ tabs_ok src = true /\
+    let r1 := sd_order (sd_merge (sd_order existing) (sd_data src) (Some src)) in
+    let r2 := sd_order (sd_merge existing (sd_data src) (Some src)) in
+    r1 <> r2 /\
+    get_dpath (Dict (sd_data r1)) [KS (of_string "a"); C15_clean_ex.bc3] = None /\
+    get_dpath (Dict (sd_data r1)) [KS (of_string "b"); C15_clean_ex.bc3] <> None /\
+    get_dpath (Dict (sd_data r2)) [KS (of_string "a"); C15_clean_ex.bc3] <> None /\
+    get_dpath (Dict (sd_data r2)) [KS (of_string "b"); C15_clean_ex.bc3] = None /\
+    tlookup 3%N (sd_bc r1) = None /\ tlookup 3%N (sd_bc r2) = None /\ sd_bc r1 = sd_bc r2.
+Proof.
+  destruct (read_opts C15_clean_ex.fs C15_clean_ex.eroot true false true [] 0) as [[[e c1]|x]|] eqn:E;
+    [|vm_compute in E; discriminate E|vm_compute in E; discriminate E].
+  destruct (read_opts C15_clean_ex.fs C15_clean_ex.sroot true false true [] 0) as [[[s c2]|x]|] eqn:S;
+    [|vm_compute in S; discriminate S|vm_compute in S; discriminate S].
+  assert (F : fs_wf C15_clean_ex.fs = true) by reflexivity.
+  assert (Ge : clean_state e = true /\ tabs_ok e = true).
+  { apply (read_opts_good_noexpr _ _ _ _ _ _ _ _ _ F E). intros sm km Em. vm_compute in Em. injection Em as <- _. reflexivity. }
+  assert (Gs : clean_state s = true /\ tabs_ok s = true).
+  { apply (read_opts_good_noexpr _ _ _ _ _ _ _ _ _ F S). intros sm km Em. vm_compute in Em. injection Em as <- _. reflexivity. }
+  exists e, s, c1, c2. split; [reflexivity|]. split; [reflexivity|].
+  split; [exact (proj1 Ge)|]. split; [exact (proj2 Ge)|]. split; [exact (proj1 Gs)|]. split; [exact (proj2 Gs)|].
+  vm_compute in E. injection E as <- _. vm_compute in S. injection S as <- _. cbv zeta.
+  split; [intros H; apply (f_equal (fun r => get_dpath (Dict (sd_data r)) [KS (of_string "a"); C15_clean_ex.bc3])) in H;
+          vm_compute in H; discriminate H|].
+  split; [vm_compute; reflexivity|]. split; [vm_compute; discriminate|]. split; [vm_compute; discriminate|].
+  split; [vm_compute; reflexivity|]. split; [vm_compute; reflexivity|]. split; vm_compute; reflexivity.
+Qed.
